@@ -76,6 +76,37 @@ def check(ctx):
     # or a substitute (shared with C06.R1 / C05.R5)
     from .c06 import _r1 as assignment_rule
     ctx.absorb(assignment_rule, "R7")
+    _r7_own_expression(ctx, pkg)
+
+
+TL = "naunet/templateloader.py"
+
+
+def _r7_own_expression(ctx, pkg):
+    """Positive half of R7: a list that feeds the `k[i] = ...` statements (rate expressions, guards) is not overwritten element-wise
+    with anything but reaction i's own rateexpr().  (The shape of the statements themselves is the absorbed rule.)"""
+    from ..valueflow import Flow, simp, show, walk
+    fn = pkg.method("TemplateLoader", "_assign_rates")
+    fl = Flow(fn, TL, resolver=lambda name: pkg.resolve("TemplateLoader", name)[1] if name.startswith("_") and not name.startswith("__") else None)
+    rets = [simp(f.value) for f in fl.facts if f.kind == "return" and f.value is not None]
+    returned = {r[1] for r in rets if r[0] == "acc"}
+    feeding = set()
+    for part in rets + [x for f in fl.facts if f.target in returned for x in ([simp(f.value)] if f.value is not None else []) + [simp(l.iter) for l in f.loops]]:
+        feeding |= {x[1] for x in walk(part) if isinstance(x, tuple) and len(x) == 2 and x[0] == "acc"}
+    feeding -= returned
+    R = ("param", "reactions")
+    n = 0
+    for f in fl.facts:
+        if f.kind in ("store", "augstore") and f.target in feeding:
+            n += 1
+            v, i = simp(f.value), simp(f.index) if f.index is not None else None
+            own = f.kind == "store" and v[0] == "meth" and v[2] == "rateexpr" and v[1][0] == "elem" and v[1][1] == R and i == ("idx", R, v[1][2])
+            ctx.check(own, "R7", f"_assign_rates:{f.target}[..] overwritten", (TL, f.line),
+                      f"`{f.target}[i]` is assigned reaction i's own rateexpr()" if own else
+                      f"element `{f.target}[{show(i)[:30]}]` of a list the statements are built from is overwritten with {show(v)[:60]}: the statement of that reaction no longer "
+                      "carries the translation of its own rate string (a copied coefficient is read before it is assigned, or outside its own temperature window)",
+                      expected="statement i carries reactions[i].rateexpr(..)", found=show(v)[:100])
+    ctx.stats["assign_rates_element_writes"] = n
 
 
 def _r6(ctx, pkg, ci):
@@ -392,19 +423,59 @@ def _r2(ctx, pkg, ci, gr):
     _callback_is(ctx, ci, "index", ("IDX", "", [], ""), "CExpression.index", "idx_X becomes IDX_X", "the C callback `index` does not turn idx_X into IDX_X")
 
 
+def _prepass(ctx, pkg, fn):
+    """The text handed to the Fortran parser, as a pipeline over self.rate_string, read off the reconstructed value (sa.valueflow;
+    module-level helper functions inlined, rewrite tables unrolled) -- whatever the spelling: re.sub(p, r, s), re.compile(p).sub(r, s),
+    chained or stepwise, in the method or in a helper.
+    -> (converter IR | None, [(pattern | None, replacement | None, line)], [(old, new, line)], problem | None)"""
+    from ..valueflow import Flow, simp, show
+    SELF = ("param", "self")
+    mod = pkg.modules[KR]
+
+    def line_of(text, default):
+        for n in ast.walk(mod):
+            if isinstance(n, ast.Constant) and n.value == text:
+                return n.lineno
+        return default
+
+    def cls_helper(name):
+        return pkg.resolve("KROMEReaction", name)[1] if name.startswith("_") and not name.startswith("__") else None
+    fl = Flow(fn, KR, resolver=cls_helper, func_resolver=lambda name: pkg.functions.get((KR, name)))
+    reads = [f for f in fl.facts if f.kind == "call" and f.value is not None and simp(f.value)[0] == "meth" and simp(f.value)[2] == "read" and len(simp(f.value)[3]) == 1]
+    if len(reads) != 1:
+        return None, [], [], f"expected one <converter>.read(text) call, found {len(reads)}"
+    rd = simp(reads[0].value)
+    conv, x = rd[1], rd[3][0]
+    subs, repl = [], []
+    is_re = lambda o: o in (("global", "re"),)
+    for _ in range(40):
+        if x == ("attr", SELF, "rate_string"):
+            return conv, list(reversed(subs)), list(reversed(repl)), None
+        const = lambda a: a[1] if a[0] == "const" and isinstance(a[1], str) else None
+        if x[0] == "meth" and x[2] == "sub" and is_re(x[1]) and len(x[3]) == 3 and not x[4]:
+            pat, rep = const(x[3][0]), const(x[3][1])
+            subs.append((pat, rep, line_of(pat, reads[0].line)))
+            x = x[3][2]
+        elif x[0] == "meth" and x[2] == "sub" and x[1][0] == "meth" and is_re(x[1][1]) and x[1][2] == "compile" and len(x[1][3]) == 1 and not x[1][4] and len(x[3]) == 2 and not x[4]:
+            pat, rep = const(x[1][3][0]), const(x[3][0])
+            subs.append((pat, rep, line_of(pat, reads[0].line)))
+            x = x[3][1]
+        elif x[0] == "meth" and x[2] == "replace" and len(x[3]) == 2 and not x[4] and const(x[3][0]) is not None and const(x[3][1]) is not None:
+            repl.append((const(x[3][0]), const(x[3][1]), reads[0].line))
+            x = x[1]
+        else:
+            break
+    return conv, list(reversed(subs)), list(reversed(repl)), f"the parsed text is not a chain of re.sub / str.replace over self.rate_string: {show(x)[:100]}"
+
+
 def _r3(ctx, pkg):
     import re._parser as sp
     fn = pkg.method("KROMEReaction", "rateexpr")
     ctx.saw(KR, "KROMEReaction.rateexpr")
-    subs = []
-    repl = []
-    for c in ast.walk(fn):
-        if isinstance(c, ast.Call):
-            f = ast.unparse(c.func)
-            if f == "re.sub" and len(c.args) >= 3:
-                subs.append((c.args[0].value if isinstance(c.args[0], ast.Constant) else None, c.args[1].value if isinstance(c.args[1], ast.Constant) else None, c.lineno))
-            elif f.endswith(".replace") and len(c.args) == 2 and all(isinstance(a, ast.Constant) for a in c.args):
-                repl.append((c.args[0].value, c.args[1].value, c.lineno))
+    conv, subs, repl, problem = _prepass(ctx, pkg, fn)
+    if problem:
+        ctx.unrec("R3", "pre-pass", (KR, fn.lineno), problem)
+        return
     ctx.floor("R3", "regex rewritings", len(subs), 4, (KR, fn.lineno))
     seen_d = 0
     for pat, rep, line in subs:
@@ -451,10 +522,17 @@ def _r3(ctx, pkg):
     ctx.check(seen_d == 1, "R3", "d-exponent rewriting present once", (KR, fn.lineno), "Fortran d-exponents are converted exactly once", found=str(seen_d))
     ok_rep = sorted((a, b) for a, b, _ in repl) == [("Hnuclei", "nH")]
     ctx.check(ok_rep, "R3", "literal replacements", (KR, fn.lineno), "the only literal replacement is Hnuclei -> nH (the registered density symbol)", found=str([(a, b) for a, b, _ in repl]))
-    # the converted text is what is returned
-    src = ast.unparse(fn)
-    ctx.check(re.search(r"self\._kromerateconverter\.read\(\w+\)", src) is not None and "f'{self._kromerateconverter:c}'" in src, "R3", "conversion", (KR, fn.lineno),
-              "the rewritten text is parsed with the Fortran grammar and printed with the C transformer (unparsable text raises)")
+    # the converted text is what is returned: the value is the converter that read the text, printed with the C transformer
+    from ..valueflow import Flow, simp
+    rets = [simp(f.value) for f in Flow(fn, KR).facts if f.kind == "return" and f.value is not None]
+    printed = [r for r in rets if r[0] == "fstr" and len(r[1]) == 1 and r[1][0][0] == "fmt" and r[1][0][2] == "c"]      # f"{x:c}" == format(x, "c")
+    ok_conv = len(rets) == 1 and len(printed) == 1 and printed[0][1][0][1] == conv
+    if ok_conv or (len(rets) == 1 and printed):
+        ctx.check(ok_conv, "R3", "conversion", (KR, fn.lineno),
+                  "the rewritten text is parsed with the Fortran grammar and printed with the C transformer (unparsable text raises)" if ok_conv else
+                  "the converter that is printed is not the one that read the rewritten text")
+    else:
+        ctx.unrec("R3", "conversion", (KR, fn.lineno), "cannot see that rateexpr returns the C rendering (format spec 'c') of the converter that read the text")
 
 
 MUTANTS = [
@@ -474,6 +552,9 @@ MUTANTS = [
     {"name": "listvar-keeps-parentheses", "file": CF, "old": '            .replace("(", "[")\n            .replace(")", "]")\n            .replace("n", "y")', "new": '            .replace("n", "y")', "rules": ["R2"]},
 ]
 BENIGN = [
+    {"name": "prepass-compiled-pattern-and-chained-replace", "file": KR,
+     "old": '        rate = re.sub(r"(idx_.?)\\)", r"\\1I)", rate)\n        rate = rate.replace("Hnuclei", "nH")\n        self._kromerateconverter.read(rate)\n',
+     "new": '        closing = re.compile(r"(idx_.?)\\)")\n        conv = self._kromerateconverter\n        conv.read(closing.sub(r"\\1I)", rate).replace("Hnuclei", "nH"))\n'},
     {"name": "c-power-by-concatenation-and-helper", "edits": [
         {"file": CF, "old": "        power = lambda self, p: f\"pow({''.join(p).replace('**', ', ')})\"\n", "new": "        def power(self, parts):\n            arguments = self._glue(parts).replace(\"**\", \", \")\n            return \"pow(\" + arguments + \")\"\n"},
         {"file": CF, "old": "    class Expression(Transformer):\n", "new": "    class Expression(Transformer):\n        @staticmethod\n        def _glue(children):\n            return \"\".join(children)\n\n"}]},
